@@ -170,8 +170,87 @@ def api_rules(ctx, prog):
     ctx.floor("C02.S5c", 3)
 
 
+def cursor_rule(ctx, prog, F, rule):
+    # the write cursor: pointer <data> + W, length <size> - W for one variable W, advanced only by the write's result
+    calls = [n for n in F.calls("pipe_write")]
+    ok = False
+    detail = {}
+    if len(calls) == 1:
+        ptr, ln = strip(calls[0]["c"][2]), strip(calls[0]["c"][3])
+        dname = [x for x in F.params if x["name"] in ("data",)] and "data"
+        pnames = None
+        if ptr["k"] == "BinaryOperator" and ptr["op"] == "+" and ln["k"] == "BinaryOperator" and ln["op"] == "-":
+            a0, w0 = expr_str(strip(ptr["c"][0])), expr_str(strip(ptr["c"][1]))
+            s0, w1 = expr_str(strip(ln["c"][0])), expr_str(strip(ln["c"][1]))
+            # the variable that receives the write's result
+            res_var = None
+            par = F.nodes.get(F.parent.get(calls[0]["id"]))
+            while par is not None and par["k"] in ("ImplicitCastExpr", "ParenExpr", "CStyleCastExpr"):
+                par = F.nodes.get(F.parent.get(par["id"]))
+            if par is not None and par["k"] == "BinaryOperator" and par["op"] == "=":
+                res_var = expr_str(strip(par["c"][0]))
+            elif par is not None and par["k"] == "VarDecl":
+                res_var = par["name"]
+            upd = [x for x in F.walk() if (x["k"] == "CompoundAssignOperator" or (x["k"] == "BinaryOperator" and x["op"] == "=") or
+                                           (x["k"] == "UnaryOperator" and x["op"] in ("++", "--"))) and expr_str(strip(x["c"][0])) == w0]
+            wloc = strip(ptr["c"][1])
+            ok = (a0 != s0 and w0 == w1 and wloc["k"] == "DeclRefExpr" and wloc.get("dk") == "local" and w0 not in a0 and w0 not in s0
+                  and len(upd) == 1
+                  and upd[0]["k"] == "CompoundAssignOperator" and upd[0]["op"] == "+=" and expr_str(strip(upd[0]["c"][1])) == res_var)
+            detail = {"write": expr_str(calls[0]), "cursor": w0, "updates": [expr_str(u) for u in upd], "result_var": res_var}
+    ctx.ob(rule + "c", "setup_input: write cursor", "each write starts at data + W for size - W bytes, for one cursor variable W that "
+           "advances only by what the write accepted", ok, detail)
+
+
+def find_input_writer(prog):
+    """the function whose loop writes the start-up input (setup_input; reproc_start if it has been inlined there)"""
+    cands = []
+    for F in prog.funcs_all:
+        if not F.file.endswith("reproc.c"):
+            continue
+        if F.name == "reproc_write":
+            continue
+        if [n for n in F.calls("pipe_write")]:
+            cands.append(F)
+    if len(cands) != 1:
+        raise AnalysisBroken("start-up input: expected one function besides reproc_write that calls pipe_write in reproc.c, found %s"
+                             % [f.name for f in cands])
+    return cands[0]
+
+
+def input_rules_in_context(ctx, prog, F, rule):
+    """the writer has been inlined into reproc_start: judge it on the all-paths run of reproc_start itself"""
+    res, Fr, I, obj = SP.reproc_start_run(ctx, prog)
+    n = 0
+    seen = set()
+    for st, rv in res.exits:
+        if rv != fs(1) or st.mon.get("input") != "set":
+            continue
+        rel = st.mon.get("rel", frozenset())
+        complete = any(f[0] == "<=" and f[1][0] == "f" and f[1][2] == "size" for f in rel)
+        if complete in seen:
+            continue
+        seen.add(complete)
+        n += 1
+        ctx.ob(rule, "%s [input written]" % F.name, "success with start-up input is reached only through the loop condition (written >= "
+               "size: the input was delivered completely)", complete, {"loop_exit_fact": [str(f) for f in rel][:3]}, nontrivial=True)
+    if n < 1:
+        raise AnalysisBroken("start-up input: no successful start with input found")
+    for e in res.events:
+        if e[0] == "write" and e[4].mon.get("input") == "set" and e[4].mon.get("proc") is None:
+            fdv = e[3][0]
+            t = next(iter(fdv)) if len(fdv) == 1 else None
+            ctx.ob(rule + "n", "%s: write mode" % F.name, "start-up input is written with the pipe in nonblocking mode (so start cannot block)",
+                   e[4].res.get(("nb", t)) == fs(1), {"mode": show(e[4].res.get(("nb", t)))}, nontrivial=True)
+            break
+    cursor_rule(ctx, prog, F, rule)
+
+
 def setup_input_rules(ctx, prog, rule="C02.S4"):
-    F = prog.fn("setup_input")
+    F = find_input_writer(prog)
+    pn = {x["name"] for x in F.params}
+    if not {"pipe", "data", "size"} <= pn:
+        return input_rules_in_context(ctx, prog, F, rule)
     I = new_interp(prog)
     I.overrides.pop("pipe_nonblocking", None)
     from ..models import OVERRIDES
@@ -217,33 +296,7 @@ def setup_input_rules(ctx, prog, rule="C02.S4"):
         if s.mon.get("failed"):
             ctx.ob(rule + "f", "setup_input [%s fails]" % s.mon["failed"].split("@")[0], "a failing (or would-block) write, or failing to set "
                    "the mode, makes start-up input fail with a negative error (start then undoes everything)", all_neg(rv), {"returns": show(rv)[:40]}, nontrivial=True)
-    # the write cursor: pointer <data> + W, length <size> - W for one variable W, advanced only by the write's result
-    calls = [n for n in F.calls("pipe_write")]
-    ok = False
-    detail = {}
-    if len(calls) == 1:
-        ptr, ln = strip(calls[0]["c"][2]), strip(calls[0]["c"][3])
-        dname = [x for x in F.params if x["name"] in ("data",)] and "data"
-        pnames = {x["name"] for x in F.params}
-        if ptr["k"] == "BinaryOperator" and ptr["op"] == "+" and ln["k"] == "BinaryOperator" and ln["op"] == "-":
-            a0, w0 = expr_str(strip(ptr["c"][0])), expr_str(strip(ptr["c"][1]))
-            s0, w1 = expr_str(strip(ln["c"][0])), expr_str(strip(ln["c"][1]))
-            # the variable that receives the write's result
-            res_var = None
-            par = F.nodes.get(F.parent.get(calls[0]["id"]))
-            while par is not None and par["k"] in ("ImplicitCastExpr", "ParenExpr", "CStyleCastExpr"):
-                par = F.nodes.get(F.parent.get(par["id"]))
-            if par is not None and par["k"] == "BinaryOperator" and par["op"] == "=":
-                res_var = expr_str(strip(par["c"][0]))
-            elif par is not None and par["k"] == "VarDecl":
-                res_var = par["name"]
-            upd = [x for x in F.walk() if (x["k"] == "CompoundAssignOperator" or (x["k"] == "BinaryOperator" and x["op"] == "=") or
-                                           (x["k"] == "UnaryOperator" and x["op"] in ("++", "--"))) and expr_str(strip(x["c"][0])) == w0]
-            ok = (a0 in pnames and s0 in pnames and a0 != s0 and w0 == w1 and w0 not in pnames and len(upd) == 1
-                  and upd[0]["k"] == "CompoundAssignOperator" and upd[0]["op"] == "+=" and expr_str(strip(upd[0]["c"][1])) == res_var)
-            detail = {"write": expr_str(calls[0]), "cursor": w0, "updates": [expr_str(u) for u in upd], "result_var": res_var}
-    ctx.ob(rule + "c", "setup_input: write cursor", "each write starts at data + W for size - W bytes, for one cursor variable W that "
-           "advances only by what the write accepted", ok, detail)
+    cursor_rule(ctx, prog, F, rule)
     # nonblocking mode set (successfully) before any write
     for e in res.events:
         if e[0] == "write":
